@@ -1,6 +1,7 @@
 package main
 
 import (
+	"encoding/binary"
 	"fmt"
 	"os"
 	"sync"
@@ -65,6 +66,11 @@ func stressCmd(out *cq.Out, seed uint64, tier string) {
 			out.Violate("C10:inconsistent-answer-under-load", fmt.Sprintf("the membership answer for event %d at version %d does not verify on an idle node", k0, q0), desc)
 		}
 
+		raw := func(k int) []byte {
+			var b [8]byte
+			binary.BigEndian.PutUint64(b[:], uint64(k))
+			return append([]byte(fmt.Sprintf("st%d", r)), b[:]...)
+		}
 		ev0 := append([]hashing.Digest{}, events...)
 		sn0 := append([]*balloon.Snapshot{}, snaps...)
 		var bad, panics, answered int64
@@ -100,18 +106,30 @@ func stressCmd(out *cq.Out, seed uint64, tier string) {
 							}
 							return
 						}
-						mp, err := n.QueryDigestMembershipConsistency(ev0[k], q)
+						var mp *balloon.MembershipProof
+						var err error
+						switch lr.Intn(4) {
+						case 0:
+							mp, err = n.QueryDigestMembershipConsistency(ev0[k], q)
+						case 1:
+							mp, err = n.QueryMembershipConsistency(raw(k), q)
+						case 2:
+							mp, err = n.QueryDigestMembership(ev0[k])
+						default:
+							mp, err = n.QueryMembership(raw(k))
+						}
 						if err != nil {
 							why = "membership query failed: " + err.Error()
 							return
 						}
-						// the current version named by the answer may be one issued during the run: wait for its snapshot
+						// the versions named by the answer may have been issued during the run: wait for their snapshots
 						cur := mp.CurrentVersion
 						sn := snapshotAt(&snapsMu, &snaps, cur)
-						if sn == nil {
-							why = fmt.Sprintf("the answer names current version %d, which was never issued", cur)
-						} else if !mp.Exists || !mp.DigestVerify(ev0[k], &balloon.Snapshot{HistoryDigest: sn0[q].HistoryDigest, HyperDigest: sn.HyperDigest}) {
-							why = fmt.Sprintf("the membership answer for event %d at version %d (current %d) does not verify against the snapshots issued for those versions", k, q, cur)
+						hq := snapshotAt(&snapsMu, &snaps, mp.QueryVersion)
+						if sn == nil || hq == nil {
+							why = fmt.Sprintf("the answer names versions (query %d, current %d) that were never issued", mp.QueryVersion, cur)
+						} else if !mp.Exists || !mp.DigestVerify(ev0[k], &balloon.Snapshot{HistoryDigest: hq.HistoryDigest, HyperDigest: sn.HyperDigest}) {
+							why = fmt.Sprintf("the membership answer for event %d at version %d (current %d) does not verify against the snapshots issued for those versions", k, mp.QueryVersion, cur)
 						}
 					})
 					atomic.AddInt64(&answered, 1)
@@ -126,20 +144,27 @@ func stressCmd(out *cq.Out, seed uint64, tier string) {
 			}(g)
 		}
 		// the apply goroutine
-		for i := 0; i < inserts; i++ {
-			k := 1 + rng.Intn(3)
-			var evs []hashing.Digest
-			for j := 0; j < k; j++ {
-				evs = append(evs, digestOf(fmt.Sprintf("st%d", r), uint64(len(events)+j)))
+		applied := make(chan struct{})
+		go func() {
+			defer close(applied)
+			for i := 0; i < inserts; i++ {
+				k := 1 + rng.Intn(3)
+				var evs []hashing.Digest
+				for j := 0; j < k; j++ {
+					evs = append(evs, digestOf(fmt.Sprintf("st%d", r), uint64(len(events)+j)))
+				}
+				s, _ := n.VApply(idx, evs)
+				idx++
+				events = append(events, evs...)
+				snapsMu.Lock()
+				snaps = append(snaps, s...)
+				snapsMu.Unlock()
 			}
-			s, _ := n.VApply(idx, evs)
-			idx++
-			events = append(events, evs...)
-			snapsMu.Lock()
-			snaps = append(snaps, s...)
-			snapsMu.Unlock()
+		}()
+		if !withTimeout(120*time.Second, func() { <-applied; wg.Wait() }) {
+			out.Violate("C10:queries-and-insertions-stall", fmt.Sprintf("concurrent queries and insertions stopped making progress: after 120 s %d of %d queries were answered and the insertions had not finished (a query neither returned a proof nor an error)", atomic.LoadInt64(&answered), readers*queries), desc)
+			return // the node cannot be closed any more
 		}
-		wg.Wait()
 		close(stop)
 		if panics > 0 {
 			out.Violate("C10:query-panic-under-load", fmt.Sprintf("%d of %d concurrent queries failed internally; first: %v", panics, answered, firstBad.Load()), desc)
